@@ -190,12 +190,13 @@ def preCheck (d : Dest) (x : Xfer) : Bool :=
 /-- the next atomic step of transfer `x` against destination `d`; `fail = true` interrupts it
 (the transfer stops for good, the destination keeps whatever it has). -/
 def xstep (d : Dest) (x : Xfer) (fail : Bool) : Dest × Xfer :=
-  match x.phase with
-  | .done => (d, x)
-  | .failed _ => (d, x)
-  | ph =>
-    if fail then (d, { x with phase := .failed .interrupted }) else
-    match ph with
+  if fail then
+    match x.phase with
+    | .done => (d, x)
+    | .failed _ => (d, x)
+    | _ => (d, { x with phase := .failed .interrupted })
+  else
+    match x.phase with
     | .init =>
       if x.force then (d, { x with phase := .prechecked })
       else if preCheck d x then (d, { x with phase := .prechecked })
@@ -204,7 +205,7 @@ def xstep (d : Dest) (x : Xfer) (fail : Bool) : Dest × Xfer :=
       match pull x.src d.chunks x.targets with
       | .error e => (d, { x with phase := .failed e })
       | .ok [] => (d, { x with phase := .added x.updates })
-      | .ok cs => (d, { x with phase := .planned (tableFiles x.fileSz cs) 0 })
+      | .ok (c :: cs) => (d, { x with phase := .planned (tableFiles x.fileSz (c :: cs)) 0 })
     | .planned fs k =>
       match fs[k]? with
       | some f => (writeFile d f, { x with phase := .planned fs (k+1) })
